@@ -108,9 +108,10 @@ for prop, kinds, invs in [("C04", ["ctr32be", "ctr32le"], ["C04", "C10", "C11"])
                           ("C06", ["belt"], ["C06", "C10", "C11"]),
                           ("C10", ["ctr32be", "belt"], ["C10", "C04", "C06", "C11"]),
                           ("C11", ["ctr32le", "belt"], ["C11", "C10", "C04", "C06"]),
-                          ("C08", ["ctr32be", "ofb", "belt"], ["C03", "C04", "C06", "C08"])]:
-    seeks = SEEKS_OK if prop != "C08" else []
-    acts = ACTS if prop != "C08" else ["ActApply", "ActRem"]
+                          ("C08", ["ctr32be", "ofb", "belt"], ["C03", "C04", "C06", "C08"]),
+                          ("C01", ["ctr32le", "belt"], ["C04", "C06", "C01"])]:
+    seeks = SEEKS_OK if prop not in ("C08", "C01") else []
+    acts = ACTS if prop not in ("C08", "C01") else ["ActApply", "ActRem"]
     stream_cfg("MC_Stream_%s_q" % prop, prop, kinds, 2, 2, 3, [0, 14, 15], seeks, ["d2", "d3"], 8, invs)
     add(prop, "MC_Stream.tla", "MC_Stream_%s_q" % prop, ("quick", "thorough"), 900, acts)
     # simulation walks also offer long requests (several whole blocks in one call: the cores' parallel path when replayed)
